@@ -222,6 +222,7 @@ type serveCase struct {
 	pre      [3]bool  // precompressed gzip, br, zstd configured
 	accepted []string // what encode.AcceptedEncodings shall return, in order
 	query    string    // r.URL.RawQuery
+	etagExt  []string  // etag_file_extensions
 	via          byte // 's' struct literal (default), 'j' JSON, 'c' Caddyfile tokens
 	indexOmitted bool // index_names not configured at all: Provision's default applies
 	fault    faultSpec // only inside a `pair` case: how this request's listing fails to be delivered
@@ -239,6 +240,7 @@ type serveObs struct {
 	fileName string   // name of the file handle that was read
 	sidecarEnc string // Content-Encoding of a served precompressed sidecar
 	location string   // Location header of a redirect
+	etagName string   // name of the etag file whose content became the Etag header
 	fs       *memFS
 }
 
@@ -355,7 +357,7 @@ func runServe(c serveCase) (serveObs, error) {
 		via = 's'
 	}
 	allUTF8 := utf8.ValidString(rootCfg)
-	for _, x := range append(append([]string{}, hideCfg...), indexCfg...) {
+	for _, x := range append(append(append([]string{}, hideCfg...), indexCfg...), c.etagExt...) {
 		allUTF8 = allUTF8 && utf8.ValidString(x)
 	}
 	if (via == 'j' && !allUTF8) || (via == 'c' && indexCfg != nil && len(indexCfg) == 0) {
@@ -383,6 +385,9 @@ func runServe(c serveCase) (serveObs, error) {
 		}
 		if !c.can {
 			cfg["canonical_uris"] = false
+		}
+		if len(c.etagExt) > 0 {
+			cfg["etag_file_extensions"] = c.etagExt
 		}
 		if len(preNames) > 0 {
 			pm := map[string]any{}
@@ -433,6 +438,10 @@ func runServe(c serveCase) (serveObs, error) {
 			line++
 			add(append([]string{"precompressed"}, preNames...)...)
 		}
+		if len(c.etagExt) > 0 {
+			line++
+			add(append([]string{"etag_file_extensions"}, c.etagExt...)...)
+		}
 		if !c.can {
 			line++
 			add("disable_canonical_uris")
@@ -458,6 +467,9 @@ func runServe(c serveCase) (serveObs, error) {
 			IndexNames:    indexCfg,
 			PassThru:      c.pass,
 			CanonicalURIs: &canon,
+		}
+		if len(c.etagExt) > 0 {
+			fsrv.EtagFileExtensions = append([]string{}, c.etagExt...)
 		}
 		if c.browse {
 			fsrv.Browse = &fileserver.Browse{}
@@ -514,7 +526,9 @@ func runServe(c serveCase) (serveObs, error) {
 	case err != nil:
 		he, ok := err.(caddyhttp.HandlerError)
 		if !ok {
-			o.outcome = "err:unstructured"
+			// a plain error (getEtagFromFile's read error): the server answers 500
+			o.status = 500
+			o.outcome = "error"
 			break
 		}
 		o.status = he.StatusCode
@@ -579,6 +593,13 @@ func runServe(c serveCase) (serveObs, error) {
 	default:
 		o.outcome = "status:" + strconv.Itoa(w.Code)
 	}
+	// an Etag that is the content of a tree file (newlines removed) came from an etag file: the
+	// handle read just before the served one
+	if et := w.Header().Get("Etag"); strings.HasPrefix(et, "FILE:") && strings.HasSuffix(et, ":END") && len(m.readFile) >= 2 &&
+		(strings.HasPrefix(o.outcome, "file ") || strings.HasPrefix(o.outcome, "sidecar ")) {
+		o.etagName = m.readFile[len(m.readFile)-2]
+		o.outcome += " etag " + core.Hex(o.etagName) + " " + strings.TrimSuffix(strings.TrimPrefix(et, "FILE:"), ":END")
+	}
 	return o, nil
 }
 
@@ -639,11 +660,18 @@ func runMatch(c matchCase) (matchObs, error) {
 // parseServe parses the fields of a serve case; f[0] is ignored ("serve").
 func parseServe(f []string) (serveCase, bool) {
 	var c serveCase
-	if len(f) != 9 && len(f) != 11 && len(f) != 12 && len(f) != 13 {
+	if len(f) != 9 && len(f) != 11 && len(f) != 12 && len(f) != 13 && len(f) != 14 {
 		return c, false
 	}
 	c.via = 's'
-	if len(f) == 13 {
+	if len(f) == 14 {
+		ee, ok := parseList(f[13])
+		if !ok {
+			return c, false
+		}
+		c.etagExt = ee
+	}
+	if len(f) >= 13 {
 		v := f[12]
 		if len(v) < 1 || len(v) > 2 || !strings.ContainsRune("sjc", rune(v[0])) || (len(v) == 2 && v[1] != 'd') {
 			return c, false
